@@ -92,6 +92,15 @@ static hostlist_t wcoll_expand_like(hostlist_t hl)
     return n;
 }
 
+/* fill the stack area the callee is about to use with a non-zero pattern, so that a
+ * missing terminator in a stack buffer is observable instead of depending on stale zeros */
+static void __attribute__((noinline)) dirty_stack(void)
+{
+    volatile char pad[768 * 1024];
+    memset((void *)pad, 0xAA, sizeof pad);
+    __asm__ volatile("" ::: "memory");
+}
+
 #include "hl_ops.inc"
 
 #define MAXW 64
@@ -113,6 +122,7 @@ int main(int argc, char **argv)
             printf("BADCASE\n");
             continue;
         }
+        dirty_stack();
         if (strcmp(w[0], "targets") == 0 && nw == 2) {
             char *s = unhex(w[1]);
             hostlist_t hl = hostlist_create(s);
